@@ -27,7 +27,7 @@ import (
 )
 
 var st = stat.New("C11",
-	"Case = one proxy (with or without a registered push callback) + a scripted server that answers every request; 1..4 rounds, round = {warm-up call on the live connection, server-side close of kind {right after a response | while idle | reconnect notification (id 0, _reconnect_) then close after 20 ms | reconnect notification, after which the server stops serving that connection and closes it only 1.5 s later | abortive close (RST) | an ordinary server push followed 100 ms later by an idle close (the push callback may take 0 / 300 / 1200 ms) | listener restart | listener restart with 1..8 calls issued while the server is down (after enough successful calls to keep the failures a minority in the health counters)}; a third of the cases use a client send queue of 4 requests (clientqueuelen), wait until the client has observed the close (at most 200 ms), generated gap from {0,1,10,100,300,500,700,900,1100,2500} ms, then 1..3 concurrent calls with a 1200 ms timeout; optionally a 1150 ms settle period}. Oracle: every call issued after the observed close succeeds (a call that fails or takes >= 1000 ms is a violation; 400..1000 ms is re-run twice before it counts); the server log shows each call's request exactly once and within 400 ms of the call; at most one new connection is opened per close; after the settle period the healthy new connection is not regarded as closed and no further connection was opened. Non-trivial = a call issued < 1 s after an observed close, preceded by >= 1 successful call on the closed connection. Distinct = distinct case JSON.",
+	"Case = one proxy (with or without a registered push callback) + a scripted server that answers every request; 1..4 rounds, round = {warm-up call on the live connection, server-side close of kind {right after a response | while idle | reconnect notification (id 0, _reconnect_) then close after 20 ms | reconnect notification, after which the server stops serving that connection and closes it only 1.5 s later | abortive close (RST) | close in the middle of a packet (2 or 9 bytes of a frame written) | an ordinary server push followed 100 ms later by an idle close (the push callback may take 0 / 300 / 1200 ms) | listener restart | listener restart with 1..8 calls issued while the server is down (after enough successful calls to keep the failures a minority in the health counters)}; a third of the cases use a client send queue of 4 requests (clientqueuelen), wait until the client has observed the close (at most 200 ms), generated gap from {0,1,10,100,300,500,700,900,1100,2500} ms, then 1..3 concurrent calls with a 1200 ms timeout; optionally a 1150 ms settle period}. Oracle: every call issued after the observed close succeeds (a call that fails or takes >= 1000 ms is a violation; 400..1000 ms is re-run twice before it counts); the server log shows each call's request exactly once and within 400 ms of the call; at most one new connection is opened per close; after the settle period the healthy new connection is not regarded as closed and no further connection was opened. Non-trivial = a call issued < 1 s after an observed close, preceded by >= 1 successful call on the closed connection. Distinct = distinct case JSON.",
 	"calls racing with a close the client cannot yet know about (FIN in flight) are excluded by construction: calls are issued only after the transport's closed flag is set",
 	"interleavings of the client's sender/receiver goroutines are sampled through the generated gaps, not enumerated")
 
@@ -64,7 +64,7 @@ func draw(rt *rapid.T) Case {
 	n := rapid.IntRange(1, 4).Draw(rt, "nrounds")
 	for i := 0; i < n; i++ {
 		rd := Round{
-			Close:  rapid.SampledFrom([]string{"after-response", "after-response", "idle", "idle", "push", "push-linger", "push-linger", "rst", "restart", "restart-down", "restart-down", "push-data", "push-data"}).Draw(rt, "close"),
+			Close:  rapid.SampledFrom([]string{"after-response", "after-response", "idle", "idle", "push", "push-linger", "push-linger", "rst", "restart", "restart-down", "restart-down", "push-data", "push-data", "partial-frame", "partial-frame"}).Draw(rt, "close"),
 			GapMs:  rapid.SampledFrom([]int{0, 1, 10, 100, 300, 500, 700, 900, 1100, 2500}).Draw(rt, "gap"),
 			NCalls: rapid.IntRange(1, 3).Draw(rt, "ncalls"),
 			Settle: rapid.IntRange(0, 3).Draw(rt, "settle") == 0,
@@ -250,6 +250,19 @@ func runOnce(c Case) outcome {
 			}
 		case "idle":
 			srv.CloseAllConns()
+		case "partial-frame":
+			// the server dies in the middle of writing a packet: the client has received the
+			// first bytes of a frame when the connection ends
+			pkt := peer.EncodeReply(1, 0, 0, 0, "news", 0, []byte("a pushed payload that is cut off"))
+			k := 2
+			if rd.GapMs%2 == 0 {
+				k = 9
+			}
+			for _, id := range srv.OpenConnIDs() {
+				_ = srv.WriteRaw(id, pkt[:k], 0, 0, "partial-frame")
+			}
+			time.Sleep(20 * time.Millisecond)
+			srv.CloseAllConns()
 		case "push-data":
 			// an ordinary server push (id 0, not the reconnect notification) and, while the
 			// client's push callback may still be busy with it, an idle close
@@ -403,6 +416,8 @@ func run(c Case) *stat.Failure {
 var pinnedCases = map[string]Case{
 	"close-while-push-callback-busy": {PushCallback: true, SlowPushMs: 1200, Rounds: []Round{
 		{Close: "push-data", GapMs: 100, NCalls: 1}, {Close: "push-data", GapMs: 500, NCalls: 2}}},
+	"close-in-the-middle-of-a-packet": {Rounds: []Round{
+		{Close: "partial-frame", GapMs: 10, NCalls: 2}, {Close: "partial-frame", GapMs: 301, NCalls: 1, Settle: true}}},
 	"restart-with-calls-during-downtime": {SmallQueue: true, Rounds: []Round{
 		{Close: "restart-down", DownCalls: 6, GapMs: 1, NCalls: 2}}},
 }
